@@ -152,6 +152,9 @@ type hop struct {
 }
 
 type bcn struct {
+	HasPeer bool
+	PeerAt  int
+	PeerIA  ia
 	Hops []hop
 	Next ia
 	TS   int64
@@ -190,6 +193,10 @@ func (b *bcn) real() beacon.Beacon {
 		}
 		e := seg.ASEntry{Local: h.IA.addr(), Next: next.addr(), MTU: 1400}
 		e.HopEntry.HopField = seg.HopField{ConsIngress: h.In, ConsEgress: h.Eg, ExpTime: 63}
+		if b.HasPeer && b.PeerAt == i {
+			e.PeerEntries = []seg.PeerEntry{{Peer: b.PeerIA.addr(), PeerInterface: 9, PeerMTU: 1400,
+				HopField: seg.HopField{ConsIngress: 7, ConsEgress: h.Eg, ExpTime: 63}}}
+		}
 		if err := ps.AddASEntry(context.Background(), e, signer); err != nil {
 			panic(err)
 		}
@@ -251,7 +258,7 @@ func main() {
 		"random max length, AS/ISD block lists, ISD-loop switch, appended neighbour (also the zero IA); " +
 		"history: a real Handler + Store/CoreStore (sqlite in memory) + ifstate with 3-6 interfaces of all link types " +
 		"receives 4-10 beacons of 1-8 entries (mostly valid by construction; mutations: unknown/child/peer ingress, wrong " +
-		"last entry, wrong next, failing signature, re-sent segment IDs with older/newer timestamps), then the store is " +
+		"last entry, wrong next, failing signature; 1/4 boundary values of Next / last Local: zero IA, I-0, 0-A, local, neighbour, other; 1/4 with a peer entry; re-sent segment IDs with older/newer timestamps), then the store is " +
 		"dumped and Propagator.beaconsPerInterface evaluated for every interface; non-trivial = filter case that reaches " +
 		"the loop/block-list decision, history in which at least one beacon is stored and one is rejected"
 	rng := vgen.NewRand(run.Seed)
@@ -418,6 +425,35 @@ func main() {
 					b.In = ifs[r.Intn(len(ifs))].ID
 				}
 			}
+			// boundary values of the IA-valued fields the handler looks at, on an otherwise untouched beacon:
+			// zero IA, wildcard AS (I-0), wildcard ISD (0-A), local IA, neighbour IA, some other IA
+			if len(b.Hops) > 0 && r.Chance(1, 4) {
+				lastIA := b.Hops[len(b.Hops)-1].IA
+				bv := []ia{{}, {lastIA.ISD, 0}, {0, lastIA.AS}, {local.ISD, 0}, {0, local.AS}, local, in.Nb, lastIA, pickIA(r)}
+				v := bv[r.Intn(len(bv))]
+				if r.Chance(3, 5) {
+					b.Next = v
+					run.Tally("boundary:next")
+				} else {
+					// a wildcard Local that equals a (misconfigured) wildcard neighbour would be stored and then
+					// fail to unpack; the handler is never given such a beacon (seg.BeaconFromPB)
+					if (v.ISD == 0 || v.AS == 0) && v == in.Nb {
+						v = pickIA(r)
+					}
+					b.Hops[len(b.Hops)-1].IA = v
+					run.Tally("boundary:local")
+				}
+			}
+			// peer entries are not looked at by the handler: Peer IA = local / neighbour / other
+			if len(b.Hops) > 0 && r.Chance(1, 4) {
+				pv := []ia{local, in.Nb, pickIA(r), pickIA(r)}
+				v := pv[r.Intn(len(pv))]
+				if v.ISD == 0 || v.AS == 0 {
+					v = pickIA(r)
+				}
+				b.PeerAt, b.PeerIA = r.Intn(len(b.Hops)), v
+				b.HasPeer = true
+			}
 			if b.Sigs == nil {
 				b.Sigs = make([]bool, len(b.Hops))
 				for j := range b.Sigs {
@@ -487,6 +523,7 @@ func main() {
 		ver := &fakeVerifier{}
 		h := beaconing.Handler{LocalIA: local.addr(), Inserter: inserter, Verifier: ver, Interfaces: realIntfs(ifs)}
 		peer := &snet.UDPAddr{IA: addr.MustParseIA("1-ff00:0:1"), Path: snetpath.SCION{}}
+		segKid := map[string]uint64{}
 		oks := make([]string, len(hist))
 		okDesc := make([]any, len(hist))
 		anyPanic := ""
@@ -494,6 +531,7 @@ func main() {
 		for k, b := range hist {
 			ver.verdicts, ver.calls = b.Sigs, 0
 			rb := b.real()
+			segKid[fmt.Sprintf("%x", rb.Segment.ID())] = b.Kid
 			var herr error
 			panicked, msg := vgen.Recover(func() { herr = h.HandleBeacon(ctx, rb, peer) })
 			switch {
@@ -511,11 +549,8 @@ func main() {
 			}
 			run.Tally("handle:" + strings.Trim(oks[k], "()"))
 		}
-		// dump
-		rows, err := backend.GetBeacons(ctx, nil)
-		if err != nil {
-			panic(err)
-		}
+		// dump: straight from the table, rows identified by the segment ID (PathSegment.ID of the beacons handed in);
+		// GetBeacons would refuse to unpack a stored beacon that is not a well-formed beacon
 		type row struct {
 			Kid   uint64
 			TS    int64
@@ -523,19 +558,28 @@ func main() {
 			Usage int
 		}
 		var dump []row
-		for _, rw := range rows {
-			var hs []hop
-			for _, e := range rw.Beacon.Segment.ASEntries {
-				hs = append(hs, hop{IA: ia{uint64(e.Local.ISD()), uint64(e.Local.AS())},
-					In: e.HopEntry.HopField.ConsIngress, Eg: e.HopEntry.HopField.ConsEgress})
+		sqlRows, err := backend.DB().ReadOnly.QueryContext(ctx, "SELECT SegID, InfoTime, InIntfID, Usage FROM Beacons")
+		if err != nil {
+			panic(err)
+		}
+		for sqlRows.Next() {
+			var segID []byte
+			var d row
+			if err := sqlRows.Scan(&segID, &d.TS, &d.In, &d.Usage); err != nil {
+				panic(err)
 			}
-			kid, ok := kids[keyOf(hs)]
+			kid, ok := segKid[fmt.Sprintf("%x", segID)]
 			if !ok {
 				kid = 1 << 30
 			}
-			dump = append(dump, row{kid, rw.Beacon.Segment.Info.Timestamp.Unix(), rw.Beacon.InIfID, int(rw.Usage)})
-			run.Tally(fmt.Sprintf("stored:usage=%d", rw.Usage))
+			d.Kid = kid
+			dump = append(dump, d)
+			run.Tally(fmt.Sprintf("stored:usage=%d", d.Usage))
 		}
+		if err := sqlRows.Err(); err != nil {
+			panic(err)
+		}
+		_ = sqlRows.Close()
 		sort.Slice(dump, func(a, b int) bool { return dump[a].Kid < dump[b].Kid })
 		dumpT := vgen.ListOf(dump, func(d row) string {
 			return fmt.Sprintf("(%d, (%d)%%Z, %d, %d)", d.Kid, d.TS, d.In, d.Usage)
